@@ -55,6 +55,20 @@ fn main() {
     drop(f);
     let script = std::env::var("VREC_OUTCOMES").unwrap_or_default();
     let o = script.split(',').nth(k).unwrap_or("0").trim().to_string();
+    if let Some(sig) = o.strip_prefix('c') {
+        // killed by a signal WITH a core dump (the wait status then carries the 0x80 flag)
+        let n: i32 = sig.parse().unwrap_or(11);
+        unsafe {
+            let lim = libc::rlimit { rlim_cur: libc::RLIM_INFINITY, rlim_max: libc::RLIM_INFINITY };
+            let mut old = libc::rlimit { rlim_cur: 0, rlim_max: 0 };
+            libc::getrlimit(libc::RLIMIT_CORE, &mut old);
+            let lim = libc::rlimit { rlim_cur: old.rlim_max.min(lim.rlim_cur), rlim_max: old.rlim_max };
+            libc::setrlimit(libc::RLIMIT_CORE, &lim);
+            libc::signal(n, libc::SIG_DFL);
+            libc::raise(n);
+        }
+        std::process::exit(99);
+    }
     if let Some(sig) = o.strip_prefix('s') {
         let n: i32 = sig.parse().unwrap_or(15);
         unsafe {
